@@ -21,6 +21,7 @@ ECC_ELL = [0.0, 1e-8, 1e-4, 0.01, 0.1, 0.3, 0.5, 0.7, 0.9, 0.99, 0.999, 0.9999, 
 BRANCH_NAMES = {0: "newton_converged", 1: "quartic_converged", 2: "newton_failed->bisection_elliptic",
                 3: "newton_failed->bisection_hyperbolic", 4: "quartic_failed->bisection_elliptic",
                 13: "bisection_hyperbolic+nan_rescue(e>=1e8 legacy)", 12: "bisection_elliptic+nan_rescue", 10: "newton_converged+nan_rescue"}
+SABA_TYPES = ["1", "2", "3", "4", "10,4", "8,6,4", "10,6,4", "h8,4,4", "h8,6,4", "h10,6,4", "cm2", "cm3", "cl3", "cl4"]
 KNOWN_KEY = "kepler:hyperbolic_bisection_bracket_overflow"
 KNOWN_512 = "kepler:whfast512_fixed_iterations_outside_small_step_domain"
 KNOWN_HANG = "kepler:hyperbolic_newton_overflow_nontermination"
@@ -81,6 +82,31 @@ def gen_case(rng, hyp=None, max_rev=1e3, min_rev=1e-8, emax_ell=None, positive_d
     p = orbit(a, e, ph, mu, randrot(rng) if rng.random() < 0.7 else None)
     meta = {"a": a, "e": e, "anomaly": ph, "mu": mu, "dt_over_P": sgn * nrev}
     return meta, p, mu, dt
+
+
+def gen_near_parabolic(rng):
+    d = 10 ** rng.uniform(-6, -3)
+    hyp = rng.random() < 0.6
+    e = 1 + d if hyp else 1 - d
+    q = 10 ** rng.uniform(-3, 3)
+    mu = 10 ** rng.uniform(-4, 3)
+    a = q / d
+    rq = rng.choice([1.0, 1.0 + 10 ** rng.uniform(-6, 0), 10 ** rng.uniform(0, 3)])      # r / q at the start
+    if hyp:
+        ch = (1 + rq * d) / e
+        ph = math.acosh(max(1.0, ch))
+    else:
+        c = (1 - min(rq, (1 + e) / d * 0.999) * d) / e
+        ph = math.acos(max(-1.0, min(1.0, c)))
+    ph *= rng.choice([-1, 1])
+    if rq == 1.0:
+        ph = 0.0
+    tq = math.sqrt(q ** 3 / mu)
+    dt = rng.choice([-1, 1]) * 10 ** rng.uniform(-3, 3) * tq
+    p = orbit(a, e, ph, mu, randrot(rng) if rng.random() < 0.7 else None)
+    P = 2 * math.pi * math.sqrt(a ** 3 / mu)
+    return {"a": a, "e": e, "anomaly": ph, "mu": mu, "dt_over_P": dt / P, "near_parabolic": True, "one_minus_e": (1 - e),
+            "dt_over_pericentre_time": dt / tq}, p, mu, dt
 
 
 def overflow_predicate(p, mu, dt):
@@ -177,6 +203,17 @@ def run(ctx):
             dtp = sg * th * math.sqrt(sum(v * v for v in pp[:3]))
             solver_cases.append(({"a": 1.0, "e": 1.0001, "anomaly": 0.0, "mu": 1.0, "dt_over_P": dtp / (2 * math.pi),
                                   "probe": "nonfinite_z_guard"}, pp, 1.0, dtp, ps.predict(pp, 1.0, dtp), None))
+    # near-parabolic orbits of both kinds (|1-e| in [1e-6, 1e-3], |beta| tiny): pericentre distance q and the pericentre
+    # time scale sqrt(q^3/mu) set the scales (the period 2 pi sqrt(|a|^3/mu) is (1-e)^-1.5 times longer), r/q up to 1e3
+    nnp = ctx.scale(120, 1500)
+    npar = 0
+    while npar < nnp:
+        meta, p, mu, dt = gen_near_parabolic(rng)
+        code = ps.predict(p, mu, dt)
+        if code in (100, -1):
+            continue
+        npar += 1
+        solver_cases.append((meta, p, mu, dt, code, None))
     ltries = 0
     while got.get(13, 0) < quota[13] and ltries < 20000:
         ltries += 1
@@ -283,6 +320,7 @@ def run(ctx):
 
     # ---------------- 3. searcher (library only)
     violations = []     # (key, replay, what)
+    nos_samples = []
     worst = {}
 
     def record(tag, res):
@@ -326,6 +364,7 @@ def run(ctx):
             violations.append(("kepler:solver_nonfinite", rep, "solver returned NaN/inf coordinates"))
             continue
         if "nosolution" in res:
+            nos_samples.append({"why": res["nosolution"][:120], "meta": meta})
             nos += 1
             continue
         record("solver", res)
@@ -360,6 +399,10 @@ def run(ctx):
             simcases.append({"integrator": integ, "coordinates": coord, "G": G.hex(), "m0": m0.hex(), "m1": m1.hex(),
                              "p0": hexl(p0), "p1": hexl(p1), "dt": dt.hex()})
             simmeta.append((dict(meta, integrator=integ, coordinates=coord, mass_ratio=q, G=G), rel, mu_eff, dt))
+            if integ == "saba":      # every coefficient table (odd and even stage counts, with and without correctors)
+                st = rng.choice(SABA_TYPES)
+                simcases[-1]["saba_type"] = st
+                simmeta[-1][0]["saba_type"] = st
     sim_out, err = run_driver(libdir, "sim", simcases, timeout=600)
     # WHFast512 (AVX512 build, own library in its own child): dt > 0, G = 1, massive planet with negligible mass
     w512 = []
@@ -443,6 +486,7 @@ def run(ctx):
         if t != dt:
             violations.append(("kepler:%s_time" % tag, rep, "simulation time after one step is %r, expected %r" % (t, dt)))
         if "nosolution" in res:
+            nos_samples.append({"why": res["nosolution"][:120], "meta": meta})
             nos += 1
             continue
         record(tag, res)
@@ -459,6 +503,7 @@ def run(ctx):
     if errors:
         ctx.extra["full_step_errors"] = errors
     ctx.extra["oracle_could_not_judge"] = nos
+    ctx.extra["oracle_could_not_judge_samples"] = nos_samples[:5]
     ctx.extra["worst_error_over_tolerance"] = {"%s:%s" % k: round(v, 5) for k, v in sorted(worst.items())}
 
     # report: one violation per distinct key (smallest |dt/P| first: the easiest input to look at)
